@@ -278,7 +278,8 @@ class C19(Prop):
             'CoseSignBuilder': [lambda: '(protected %s)' % hdr(), lambda: '(unprotected %s)' % hdr(), lambda: '(payload %s)' % b(), lambda: '(add_signature %s)' % g.sig(1), lambda: '(add_created_signature %s %s echo)' % (g.sig(1), b()), lambda: '(try_add_created_signature %s %s (fail 4))' % (g.sig(1), b())],
             'CoseMacBuilder': [lambda: '(protected %s)' % hdr(), lambda: '(unprotected %s)' % hdr(), lambda: '(payload %s)' % b(), lambda: '(tag %s)' % b(), lambda: '(add_recipient %s)' % g.rcp(1), lambda: '(create_tag %s echo)' % b()],
             'CoseMac0Builder': [lambda: '(protected %s)' % hdr(), lambda: '(unprotected %s)' % hdr(), lambda: '(payload %s)' % b(), lambda: '(tag %s)' % b(), lambda: '(try_create_tag %s (k b09))' % b()],
-            'CoseRecipientBuilder': [lambda: '(protected %s)' % hdr(), lambda: '(unprotected %s)' % hdr(), lambda: '(ciphertext %s)' % b(), lambda: '(add_recipient %s)' % g.rcp(1), lambda: '(create_ciphertext %s %s %s cat)' % (r.choice(['EncRecipient', 'MacRecipient', 'RecRecipient', 'CoseEncrypt', 'CoseEncrypt0']), b(), b())],
+            'CoseRecipientBuilder': [lambda: '(protected %s)' % hdr(), lambda: '(unprotected %s)' % hdr(), lambda: '(ciphertext %s)' % b(), lambda: '(add_recipient %s)' % g.rcp(1), lambda: '(create_ciphertext %s %s %s cat)' % (r.choice(['EncRecipient', 'MacRecipient', 'RecRecipient', 'CoseEncrypt', 'CoseEncrypt0']), b(), b()),
+                                     lambda: '(try_create_ciphertext %s %s %s %s)' % (r.choice(['EncRecipient', 'MacRecipient', 'RecRecipient', 'CoseEncrypt', 'CoseEncrypt0']), b(), b(), r.choice(['cat', '(k b01)', '(fail 2)']))],
             'CoseEncryptBuilder': [lambda: '(protected %s)' % hdr(), lambda: '(unprotected %s)' % hdr(), lambda: '(ciphertext %s)' % b(), lambda: '(add_recipient %s)' % g.rcp(1), lambda: '(create_ciphertext %s %s cat)' % (b(), b())],
             'CoseEncrypt0Builder': [lambda: '(protected %s)' % hdr(), lambda: '(unprotected %s)' % hdr(), lambda: '(ciphertext %s)' % b(), lambda: '(try_create_ciphertext %s %s (k b01))' % (b(), b())],
             'CoseKeyBuilder': [lambda: '(kty %s)' % g.rl('KeyType'), lambda: '(key_id %s)' % b(), lambda: '(base_iv %s)' % b(), lambda: '(key_type A%d)' % r.choice(reg_values('KeyType')), lambda: '(algorithm %s)' % alg(), lambda: '(add_key_op A%d)' % r.choice(reg_values('KeyOperation')),
